@@ -47,6 +47,16 @@ def make_case(rng, nodes, imps, pool=None, force_kinds=None):
         mods = [pool.pop() for _ in range(n)]
         kind = (force_kinds[i] if force_kinds else ("R" if rng.random() < 0.35 else "N"))
         layers.append((f"L{i}", kind, mods))
+    if rng.random() < 0.3:
+        # one layer lists a package AND one of its sub modules (inside one layer listed modules may be related: the sub
+        # module, its siblings and everything below the package belong to that layer either way)
+        cand = [(i, d) for i, (_, k_, ms) in enumerate(layers) if k_ == "N" for m in ms for d in nodes if d != m and gen.is_desc(d, m) and d not in ms]
+        if cand:
+            i, d = rng.choice(cand)
+            n_, k_, ms = layers[i]
+            ms = ms + [d]
+            rng.shuffle(ms)
+            layers[i] = (n_, k_, ms)
     arch = [(n, k_, (ms if k_ == "N" else rx_for(ms))) for n, k_, ms in layers]
     names = [l[0] for l in layers]
     subj = rng.choice(names)
